@@ -105,7 +105,9 @@ def run(tier, replay=None):
             for k, p in enumerate(paths):
                 sid = "%s-%s-%d" % (client, init, k)
                 ops = [OPNAME[gr.edges[i][2]] for i in p]
-                scen.append({"id": sid, "client": client, "cfg": cfg, "ops": ops})
+                # driver variations that the statement quantifies over but the model does not distinguish: the static headers come
+                # from one option or from two, and the configured URL carries a query string or none
+                scen.append({"id": sid, "client": client, "cfg": cfg, "ops": ops, "split": len(scen) % 2 == 1, "query": len(scen) % 3 != 0})
                 expected[sid] = [(gr.nodes[gr.edges[i][1]]["res"], gr.nodes[gr.edges[i][1]]["wire"]) for i in p]
     rnd.shuffle(scen)
     nproc = 12
